@@ -541,6 +541,11 @@ func (i *interpreter) checkAssert(cond value, tag string) {
 	}
 	// continue under the assumption that the assertion holds (if feasible)
 	if c.Op == OpConst {
+		if outside.Op == OpConst && outside.Val == 0 {
+			// the failure is wholly inside a known finding: keep exploring the rest of the history,
+			// otherwise the known finding would hide every later violation on this path
+			return
+		}
 		panic(abort(abViolation, "assertion failed concretely: "+tag))
 	}
 	if i.evalModel(c) == 0 {
